@@ -8,8 +8,10 @@ Clauses(r) ==
      <<"database-files-and-listing-unchanged-after-every-step", \A i \in DOMAIN r.steps : r.steps[i].unchanged>>,
      <<"journal-only-while-a-statement-level-write-is-open", \A i \in DOMAIN r.steps :
           r.steps[i].journal => StmtOpen([j \in DOMAIN r.steps |-> r.steps[j].cmd], i)>>,
-     <<"commit-is-refused-and-failing-commands-fail", \A i \in DOMAIN r.steps : r.steps[i].outcome \in Outcomes(r.steps[i].cmd)>>,
-     <<"pending-changes-are-never-flushed", \A i \in DOMAIN r.steps :
+     \* r.lenient: the genome file is damaged or foreign (a table missing, zero bytes, another SQLite schema) - commands may fail there,
+     \* only the immutability clauses apply
+     <<"commit-is-refused-and-failing-commands-fail", r.lenient \/ \A i \in DOMAIN r.steps : r.steps[i].outcome \in Outcomes(r.steps[i].cmd)>>,
+     <<"pending-changes-are-never-flushed", r.lenient \/ \A i \in DOMAIN r.steps :
           LET before == IF i = 1 THEN NoPending ELSE r.steps[i - 1].pending
           IN r.steps[i].pending \in PendingAfter(r.steps[i].cmd, before)>> >>
 
